@@ -60,9 +60,16 @@ var (
 	storePtrTok = map[uintptr]int{} // maps and slices, by identity
 )
 
+// typedNilToks: store tokens that stand for typed nil values (a nil pointer / a nil map boxed in an `any`): values like any
+// other — what was stored is what comes back, type included
+var typedNilToks = map[int]any{37: (*int)(nil), 38: map[string]any(nil), 39: (*pair)(nil)}
+
 func init() {
 	for n := 1; n <= storeMaxTok; n++ {
 		v := goVal(n)
+		if tn, ok := typedNilToks[n]; ok {
+			v = tn
+		}
 		storeVals[n] = v
 		rv := reflect.ValueOf(v)
 		switch rv.Kind() {
@@ -626,6 +633,16 @@ func genC14(r *rng, thorough bool, add func(StoreScenario)) {
 	}
 	for _, f := range fixed {
 		add(StoreScenario{Keys: []string{"", "é"}, Ops: f})
+	}
+	// keys are opaque strings: "cfg.v" is not a path into the map stored under "cfg" (token 4 is map[string]any{"v": 4}),
+	// "." is not a path into the value of ""; typed nil values (tokens 37, 38, 39) are stored and returned as they are
+	for _, f := range [][]string{
+		{"s0:4", "h1", "g1", "l", "k", "a", "d1", "h0", "g0", "s1:12", "g1", "d1", "g1", "h1"},
+		{"s2:4", "h3", "g3", "l", "s3:20", "g3", "c", "h3"},
+		{"ml0:4,2:12", "h1", "g1", "h3", "g3", "k", "a", "rs0"},
+		{"s0:37", "g0", "h0", "a", "rs0", "s1:38", "g1", "ml2:39", "g2", "l", "k", "ms0", "g0", "d0", "g0"},
+	} {
+		add(StoreScenario{Keys: []string{"cfg", "cfg.v", "", "."}, Ops: f})
 	}
 	// exhaustive: all sequences of length <= 4 over the 19-operation alphabet (2 keys); thorough adds
 	// all sequences of length 5 over the mutators and snapshot operations
